@@ -4,8 +4,7 @@
 // (MsgRun / MsgAddPackage: ValidateBasic, type check, preprocess, run; gas meter; allocation limit) on a
 // re-creation of the vm package's test environment, inside worker subprocesses under RLIMIT_AS:
 //   (a) all token sequences of length <= k over a 34-token alphabet in 5 templates (+ one more level over
-//       a 16-token sub-alphabet);  (b) nesting ladders for 45 recursive constructs with N past the parser
-//       limit;  (c) huge-constant menus;  (d) recursive type/const/var cycle menu + resource-exhaustion menu
+//       a 16-token sub-alphabet);  (b) nesting / length ladders for 44 constructs (thorough: N past the parser's 100000 limit);  (c) huge-constant menus;  (d) recursive type/const/var cycle menu + resource-exhaustion menu
 //       (also as realm init code via MsgAddPackage);  (e) every single-token deletion / substitution by each
 //       alphabet token / duplication of 40 small valid programs.
 // Oracle: outcome in {OK, type-check/validation error, Gno panic, out-of-gas, alloc-limit}. Violations: a Go
@@ -420,6 +419,13 @@ func deathLine(stderr string, ps *os.ProcessState) string {
 	return "(unknown)"
 }
 
+func idOf(f family, i int64) string {
+	if lf, ok := f.(*lazyFamily); ok {
+		return lf.ids[i]
+	}
+	return f.Case(i).ID
+}
+
 func firstLines(s string, n int) string {
 	ls := strings.Split(s, "\n")
 	if len(ls) > n {
@@ -428,7 +434,7 @@ func firstLines(s string, n int) string {
 	return strings.Join(ls, "\n")
 }
 
-func (s *sched) runAll(nw int) {
+func (s *sched) runAll(nw int, ignoreBudget bool) {
 	var wg sync.WaitGroup
 	for k := 0; k < nw; k++ {
 		wg.Add(1)
@@ -442,7 +448,7 @@ func (s *sched) runAll(nw int) {
 				}
 			}()
 			for {
-				if r.Expired() {
+				if !ignoreBudget && r.Expired() {
 					return
 				}
 				c, ok := s.next()
@@ -471,7 +477,7 @@ func main() {
 		workerMain()
 		return
 	}
-	r.SetBudget(15*time.Minute, 40*time.Minute)
+	r.SetBudget(15*time.Minute, 22*time.Minute)
 	g := newGen(r.Thorough())
 	s := &sched{famDone: map[string]int64{}, famHist: map[string]*[nClasses]int64{}, faults: map[string][]string{}, faultSrc: map[string]string{},
 		review: map[string]int64{}, reviewEx: map[string]string{}, thorough: r.Thorough()}
@@ -480,6 +486,8 @@ func main() {
 		s.cpuLimit = 90 * time.Second
 	}
 	// queue: heavy singletons first, bulk token sequences last (budget cap hits the bulk, per-family completion is reported)
+	// and within the token sequences: shorter first across all templates, so that a capped run has covered every
+	// template up to the same depth
 	order := func(name string) int {
 		switch {
 		case name == "ladders":
@@ -491,9 +499,11 @@ func main() {
 		case name == "mutations":
 			return 3
 		case strings.HasPrefix(name, "seq/"):
-			return 4
+			k := 0
+			fmt.Sscanf(name[strings.LastIndex(name, "=")+1:], "%d", &k)
+			return 10 + k
 		}
-		return 5
+		return 100 // seq16 (sub-alphabet, deepest level) last
 	}
 	fams := append([]family(nil), g.fams...)
 	sort.SliceStable(fams, func(i, j int) bool { return order(fams[i].Name()) < order(fams[j].Name()) })
@@ -524,7 +534,7 @@ func main() {
 		total += f.Size()
 	}
 	nw := 12
-	s.runAll(nw)
+	s.runAll(nw, false)
 
 	// attribution: every death / hang-suspect is re-run ALONE in a fresh worker with 4x the CPU budget
 	first := s.incidents
@@ -535,11 +545,36 @@ func main() {
 		}
 		return first[i].idx < first[j].idx
 	})
-	if len(first) > 0 && !r.Capped() {
-		for _, in := range first {
-			s.queue = append(s.queue, chunk{fam: g.family(in.fam), from: in.idx, to: in.idx + 1, alone: true})
+	// (always done, also after the budget expired: at most maxAttr suspects, the rest is listed as unattributed)
+	// Deaths are always re-run (they end quickly); of the budget suspects the two smallest rungs per construct
+	// (case id without its trailing number) are re-run, at most maxAttr in total — larger rungs of the same
+	// ladder add nothing to the verdict.
+	const maxAttr = 12
+	var unattributed []string
+	s.mu.Lock()
+	s.queue = nil
+	s.mu.Unlock()
+	perConstruct := map[string]int{}
+	nAttr := 0
+	for _, in := range first {
+		id := idOf(g.family(in.fam), in.idx)
+		fmt.Printf("(informative) first-pass incident: %s [%s] %s\n", id, in.kind, in.msg)
+		construct := strings.TrimRight(id, "0123456789")
+		if in.kind != "death" {
+			if perConstruct[construct] >= 2 || nAttr >= maxAttr {
+				unattributed = append(unattributed, id)
+				continue
+			}
+			perConstruct[construct]++
+			nAttr++
 		}
-		s.runAll(4)
+		s.queue = append(s.queue, chunk{fam: g.family(in.fam), from: in.idx, to: in.idx + 1, alone: true})
+	}
+	if len(s.queue) > 0 {
+		s.runAll(5, true)
+	}
+	if len(unattributed) > 0 {
+		r.MarkCapped()
 	}
 	confirmed := s.incidents
 	sort.Slice(confirmed, func(i, j int) bool {
@@ -664,9 +699,9 @@ func main() {
 		"worker memory: parent-enforced 4 GiB resident-set cap (the VM allocator limit is 500 MB of accounted bytes) with RLIMIT_AS 12 GiB as backstop; per-case budget is CPU time of the worker process (not wall clock): 40 s quick / 90 s thorough in a batch, suspects are re-run alone in a fresh worker with 4x that before being reported",
 		"gas limits: 1e7 token sequences, 2e7 mutations, 2e7 menus, 1e8 constants, 3e9 (block maximum) ladders",
 	}
-	r.Finish("all token sequences of length <= k over the 34-token alphabet in 5 templates (quick k<=3 + k=4 over 16 tokens; thorough k<=4 + k=5 over 16 tokens); ladders: 45 constructs x sizes up to 30000 (quick) / 200000 (thorough); constant, cycle and resource menus; all single-token deletions/substitutions/duplications of 40 programs. distinct = distinct (family, index) cases executed",
+	r.Finish("all token sequences of length <= k over the 34-token alphabet in 5 templates (quick k<=3 + k=4 over 16 tokens; thorough k<=4 + k=5 over 16 tokens); ladders: 44 constructs x 17 sizes up to 2048 (quick) / 27 sizes up to 200000 or 1 MB of source (thorough); constant, cycle and resource menus; all single-token deletions/substitutions/duplications of 40 programs. distinct = distinct (family, index) cases executed",
 		exhaustive, map[string]any{
-			"families": perFam, "total_cases": total, "executed": executed, "confirmed_incidents": len(confirmed),
+			"families": perFam, "total_cases": total, "executed": executed, "confirmed_incidents": len(confirmed), "unattributed_suspects": unattributed,
 			"review_candidates": rev, "alphabet": alphabet, "sub_alphabet": subAlphabet, "cpu_limit_s": s.cpuLimit.Seconds(),
 		})
 }
